@@ -112,6 +112,18 @@ def check(ctx, src):
     ok = init is not None and _is_assign_to(init.value, "name") and "asty.Constant(expr, value=None)" in norm(init.value) and ret0 is not None
     ctx.check(ok, "WITH-TEMP", f"{R}|compile_with_expression|init-none", "the temporary is not initialised to None as the first emitted statement", R, wf.lineno,
               witness="a with whose manager suppresses an exception leaves its result variable unbound: NameError instead of None", detail="ret = Result(stmts=[name = None])", strict=False)
+    # the two assignments to the result temporary that `with` emits - `tmp = None` before everything, `tmp = <body value>` as
+    # the last statement of the innermost body - are built unconditionally (every arm of the nesting logic needs both)
+    def _assign_calls(pred):
+        return [c for c in pyq.calls(wf) if dotted(c.func) == "asty.Assign" and pred(next((k.value for k in c.keywords if k.arg == "value"), None))]
+    inits = _assign_calls(lambda v: isinstance(v, ast.Call) and dotted(v.func) == "asty.Constant" and any(k.arg == "value" and isinstance(k.value, ast.Constant) and k.value.value is None for k in v.keywords))
+    stores = _assign_calls(lambda v: isinstance(v, ast.Attribute) and v.attr == "force_expr")
+    for what, sites, wit in (("init-unconditional", inits, "a with nested because of a later statement-bearing manager leaves its result unbound when an outer manager suppresses an exception raised while computing the later manager"),
+                             ("store-unconditional", stores, "(with [a (A) b (do (s) (B))] (+ a b)) returns None")):
+        cond = [c for c in sites if [g for g in pyq.guards(c, wf, siblings=False)]]
+        ctx.decide("WITH-TEMP", f"{R}|compile_with_expression|{what}", None if not sites else not cond,
+                   f"the assignment `{norm(cond[0])[:60] if cond else ''}` of the with's result temporary is built only under {[str(norm(t_)) for t_, _ in pyq.guards(cond[0], wf, siblings=False)] if cond else []}; it is needed on every arm",
+                   R, (cond[0].lineno if cond else wf.lineno), witness=wit, detail="unconditional", robust=True)
     store = [n for n in wf.body if isinstance(n, ast.AugAssign) and norm(n.target) == "cbody" and _is_assign_to(n.value, "name")]
     node_i = next((i for i, n in enumerate(wf.body) if isinstance(n, ast.AugAssign) and norm(n.target) == "ret" and "body=cbody.stmts" in norm(n.value)), None)
     ok = len(store) == 1 and node_i is not None and wf.body.index(store[0]) < node_i and "cbody.force_expr" in norm(store[0].value)
